@@ -744,9 +744,17 @@ func run(c *h.Check) {
 		search(c, strict, d, f)
 	}
 	runLongLogs(c)
+	for _, sc := range concurrentScenarios() {
+		c.Explore(sc, 2, 200000, false)
+	}
 }
 
 func replay(c *h.Check, rf *h.ReplayFile) []vrt.Violation {
+	for _, sc := range concurrentScenarios() {
+		if sc.Name == rf.Scenario {
+			return h.ReplaySchedule(sc, rf)
+		}
+	}
 	var lw struct {
 		Long *longCase `json:"long"`
 	}
